@@ -26,11 +26,12 @@ RULE = (
     "loc and (1,) scale; (n,s) with (s,) loc and () scale; (n,k) with per-feature loc and scale; (n,t,k) weighted or unweighted values "
     "with full-shape loc and (1,)/(k,) scale), values/locs in unit or age range, scale in [0.01, 15], masked entries holding junk "
     "(nan, 1e30, ...), routes nll / regularization / nll_and_jacobian. Bernoulli: (n,t,k) weighted values in {0,1}, p in (1e-6, 1-1e-6), "
-    "masked entries holding numbers outside the support. Weibull right-censored +/- sources: 2-8 rows x 1-3 competing events, float64 "
+    "masked entries holding numbers outside the support, saturated probabilities (exactly 0 / 1, 1-2^-24, denormal-small, the bounds). Weibull right-censored +/- sources: 2-8 rows x 1-3 competing events, float64 "
     "event times placed after / exactly at / before the reference time tau, censoring drawn (one-hot per row for several events), "
     "nu in [0.5, 100], rho in [0.3, 6] (incl. exactly 1), xi in [-2, 2], shifts in [-2, 2], float32 parameters. "
     "Engine M: model configuration x generated cohort x 5 generated parameter/latent assignments per cohort (joint models: tau of "
-    "some individuals moved behind their event time). Non-trivial = Normal/Bernoulli: non-scalar layout and some scale != 1 "
+    "some individuals moved behind their event time; Bernoulli models: xi boosted by up to 9 and tau shifted by +-30 so that the float32 "
+    "logistic curve saturates). Non-trivial = Normal/Bernoulli: non-scalar layout and some scale != 1 "
     "(Bernoulli: both outcomes present among unmasked entries); Weibull: rho != 1 and both censored and observed rows after the "
     "reference time; model level: >= 2 individuals (joint: plus the Weibull rule). Distinct by the generated case."
 )
@@ -48,15 +49,19 @@ ASSUMPTIONS = [
     "Masked entries of weighted values are meaningless: they may hold any number (also outside the support); only unmasked entries and the "
     "masked sums are judged. Model level: the distribution parameters (model values, noise_std, <var>_mean, <var>_std, nu, rho, "
     "survival_shifts) are read from the state - how they are derived is the business of other properties.",
-    "Bernoulli model-level individuals whose model probability leaves (1e-6, 1-1e-6) at an observed entry (float32 saturation of the "
-    "logistic curve) are not judged (counted).",
+    "Saturated Bernoulli probabilities (p <= 1e-6 or p >= 1-1e-6 at an observed entry, including exactly 0 / 1 as the float32 logistic "
+    "curve produces them) are judged with a weaker interval oracle at both levels: the term is never NaN; an agreeing outcome gives a "
+    "value in [0, 2e-6]; a disagreeing outcome gives a value >= -log(1e-6) - 1e-3 (finite or +inf accepted, never negative); sums of "
+    "acceptable terms are non-NaN and lie inside the summed bounds.",
     "MixtureNormalFamily / MultivariateNormalFamily and the jacobian outputs are outside the statement; not checked.",
 ]
 REQUIRED_CLASSES = {
     "nontrivial": 0.3,
     "normal:attach-diag": 150, "normal:attach-scalar": 150, "normal:ind-col": 150, "normal:ind-src": 150, "normal:pop-mat": 150,
     "normal:masked-junk": 150, "normal:via-nll_and_jacobian": 150, "normal:via-regularization": 300,
-    "bernoulli:masked-junk": 150, "bernoulli:both-outcomes": 200,
+    "bernoulli:masked-junk": 150, "bernoulli:both-outcomes": 200, "bernoulli:saturated": 150, "bernoulli:p-exactly-0-or-1": 100,
+    "bernoulli:saturated-agreeing": 100, "bernoulli:saturated-disagreeing": 100,
+    "M:bernoulli:saturated": 60, "M:bernoulli:p-exactly-0-or-1": 30, "M:bernoulli:saturated-disagreeing": 20,
     "weibull:sources": 500, "weibull:no-sources": 500, "weibull:multi-event": 300,
     "weibull:row:obs-after": 1000, "weibull:row:cens-after": 1000, "weibull:row:obs-before": 300, "weibull:row:cens-before": 150,
     "weibull:row:obs-at": 100, "weibull:row:cens-at": 50, "weibull:rho-eq-1": 50, "weibull:rho-lt-1": 150,
@@ -101,13 +106,65 @@ def ref_normal(x, loc, scale):
     return ref, RTOL * mag + ATOL
 
 
+P_SAT = 1e-6
+SAT_AGREE_MAX = 2e-6
+SAT_DISAGREE_MIN = -math.log(P_SAT) - 1e-3
+
+
 def ref_bernoulli(y, p):
+    """Interval oracle, entry by entry: [lo, hi] widened by tol.
+    p strictly inside (1e-6, 1-1e-6): lo = hi = -bernoulli.logpmf(y, p) (scipy).
+    Saturated probability (p <= 1e-6 or p >= 1-1e-6, incl. exactly 0 / 1), weaker but sound: agreeing outcome -> [0, 2e-6];
+    disagreeing outcome -> [-log(1e-6) - 1e-3, +inf] (finite or +inf accepted). NaN is never accepted."""
     import numpy as np
     from scipy import stats
 
+    y, p = np.broadcast_arrays(np.asarray(y, dtype=np.float64), np.asarray(p, dtype=np.float64))
+    inside = (p > P_SAT) & (p < 1 - P_SAT)
+    agree = ~inside & (((y == 1) & (p >= 1 - P_SAT)) | ((y == 0) & (p <= P_SAT)))
+    disagree = ~inside & ~agree
     with np.errstate(all="ignore"):
-        ref = -stats.bernoulli.logpmf(y, p)
-    return ref, RTOL * np.abs(ref) + ATOL
+        ref = -stats.bernoulli.logpmf(y, np.where(inside, p, 0.5))
+    lo = np.where(inside, ref, np.where(agree, 0.0, SAT_DISAGREE_MIN))
+    hi = np.where(inside, ref, np.where(agree, SAT_AGREE_MAX, np.inf))
+    tol = np.where(inside, RTOL * np.abs(ref) + ATOL, 0.0)
+    return dict(lo=lo, hi=hi, tol=tol, inside=inside, agree=agree, disagree=disagree, exact=(p == 0) | (p == 1))
+
+
+def interval_sum(B, mask=None, axis=None):
+    """bounds of the masked sum of interval-valued entries and its tolerance"""
+    import numpy as np
+
+    if mask is None:
+        mask = np.ones(B["lo"].shape, dtype=bool)
+    lo = np.where(mask, B["lo"], 0.0).sum(axis=axis)
+    hi = np.where(mask, B["hi"], 0.0).sum(axis=axis)
+    tol = np.where(mask, B["tol"], 0.0).sum(axis=axis) + 1e-5 * np.abs(lo) + ATOL
+    return lo, hi, tol
+
+
+def judge_interval(col, sub_check, bucket, inp, what, got, lo, hi, tol, mask=None):
+    """got must not be NaN and lie in [lo - tol, hi + tol] (hi may be +inf: then +inf is accepted)."""
+    import numpy as np
+
+    got = np.asarray(got, dtype=np.float64)
+    lo = np.asarray(lo, dtype=np.float64)
+    if got.shape != lo.shape:
+        col.fail(sub_check, bucket + ":shape", inp, observed=f"{what}: shape {got.shape}", expected=f"shape {lo.shape}")
+        return False
+    hi, tol = np.broadcast_to(hi, got.shape), np.broadcast_to(tol, got.shape)
+    with np.errstate(all="ignore"):
+        bad = np.isnan(got) | ~(got >= lo - tol) | ~(got <= hi + tol)
+    if mask is not None:
+        bad = bad & np.broadcast_to(mask, got.shape)
+    if not bad.any():
+        return True
+    idx = tuple(int(i) for i in np.argwhere(bad)[0])
+    g = got[idx]
+    kind = "nan" if np.isnan(g) else ("mismatch" if lo[idx] == hi[idx] else "outside-saturated-bounds")
+    exp = f"{lo[idx]!r} +- {tol[idx]:.3g} (scipy)" if lo[idx] == hi[idx] else f"value in [{lo[idx]!r}, {hi[idx]!r}] (saturated probability), never NaN"
+    col.fail(sub_check, f"{bucket}:{kind}", inp, observed=f"{what}{list(idx)} = {g!r}", expected=exp)
+    return False
 
 
 def ref_weibull(et, eb, nu, rho, xi, tau, shifts=None):
@@ -350,8 +407,13 @@ def body_normal(col: Collector, case):
 @st.composite
 def bernoulli_case(draw):
     n, t, k = draw(st.integers(1, 8)), draw(st.integers(1, 5)), draw(st.integers(1, 4))
-    pcls = draw(st.sampled_from(["mid", "mid", "edge"]))
-    p_el = gen.f32(0.02, 0.98) if pcls == "mid" else st.one_of(gen.f32(1.1e-6, 1e-3), gen.f32(0.999, 1 - 1.1e-6), gen.f32(0.02, 0.98))
+    pcls = draw(st.sampled_from(["mid", "mid", "edge", "sat", "sat"]))
+    if pcls == "mid":
+        p_el = gen.f32(0.02, 0.98)
+    elif pcls == "edge":
+        p_el = st.one_of(gen.f32(1.1e-6, 1e-3), gen.f32(0.999, 1 - 1.1e-6), gen.f32(0.02, 0.98))
+    else:  # saturated probabilities as a float32 logistic curve produces them: exactly 0 / 1, one ulp below 1, denormal-small, the bounds
+        p_el = st.one_of(st.sampled_from(SAT_P), st.sampled_from([0.0, 1.0]), gen.f32(0.0, 1e-6), gen.f32(1 - 1e-6, 1.0), gen.f32(0.02, 0.98))
     case = dict(family="bernoulli", n=n, t=t, k=k, p=draw(st.lists(p_el, min_size=1, max_size=7)),
                 y=draw(st.lists(st.integers(0, 1), min_size=1, max_size=9)))
     wmode = draw(st.sampled_from(["none", "bool", "junk", "junk"]))
@@ -384,7 +446,16 @@ def body_bernoulli(col: Collector, case):
         col.fail(sub, f"{bucket}:unexpected-exception{cls}:{exc_bucket(e)}", case, observed=repr(e), expected="negative log-mass returned")
         col.case(classes=classes)
         return
-    ref, tol = ref_bernoulli(to_np(y_t), to_np(p_t))
+    B = ref_bernoulli(to_np(y_t), to_np(p_t))
+    seen = np.ones(shape, dtype=bool) if mask is None else mask
+    if (seen & ~B["inside"]).any():
+        classes.append("bernoulli:saturated")
+        if (seen & B["agree"]).any():
+            classes.append("bernoulli:saturated-agreeing")
+        if (seen & B["disagree"]).any():
+            classes.append("bernoulli:saturated-disagreeing")
+        if (seen & B["exact"]).any():
+            classes.append("bernoulli:p-exactly-0-or-1")
     ok = True
     if not isinstance(r, WeightedTensor):
         col.fail(sub, f"{bucket}:not-a-weighted-tensor", case, observed=type(r).__name__, expected="WeightedTensor")
@@ -397,12 +468,12 @@ def body_bernoulli(col: Collector, case):
             col.fail(sub, f"{bucket}:weight-lost", case, observed=f"weight {None if r.weight is None else r.weight.tolist()}", expected=str(mask.tolist()))
             ok = False
     if ok:
-        ok = judge(col, sub, bucket + ":entry", case, "nll", to_np(r.value), ref, tol, mask)
-    if ok:
-        sr, stol = sum_tol(ref, tol, mask, axis=(1, 2))
-        judge(col, sub, bucket + ":per-individual-sum", case, "sum_dim(nll, but_dim=0)", to_np(per), sr, stol)
-        sr, stol = sum_tol(ref, tol, mask)
-        judge(col, sub, bucket + ":total-sum", case, "sum_dim(nll)", to_np(tot), sr, stol)
+        ok = judge_interval(col, sub, bucket + ":entry", case, "nll", to_np(r.value), B["lo"], B["hi"], B["tol"], mask)
+    if ok:  # every term is acceptable (hence non-NaN): the sums must be non-NaN and inside the summed bounds
+        lo, hi, stol = interval_sum(B, mask, axis=(1, 2))
+        judge_interval(col, sub, bucket + ":per-individual-sum", case, "sum_dim(nll, but_dim=0)", to_np(per), lo, hi, stol)
+        lo, hi, stol = interval_sum(B, mask)
+        judge_interval(col, sub, bucket + ":total-sum", case, "sum_dim(nll)", to_np(tot), lo, hi, stol)
     yv = to_np(y_t)[mask] if mask is not None else to_np(y_t).ravel()
     both = bool((yv == 0).any() and (yv == 1).any())
     if both:
@@ -411,6 +482,9 @@ def body_bernoulli(col: Collector, case):
     if nontrivial:
         classes.append("nontrivial")
     col.case(classes=classes, nontrivial=jhash(case) if nontrivial else None, sample=case)
+
+
+SAT_P = [0.0, 1.0, 1 - 2.0 ** -24, 1 - 2.0 ** -23, 1 - 2.0 ** -20, 2.0 ** -24, 1e-7, 1e-10, 1e-30, 1e-45, 1e-6, 1 - 1e-6]
 
 
 TIME_CLASSES = ("after", "after", "after", "after", "before", "at")
@@ -584,6 +658,11 @@ def model_case(draw, kinds, bernoulli=False):
     sets = [dict(u=draw(st.lists(u, min_size=11, max_size=17)),
                  tau_mode=draw(st.lists(st.sampled_from([0, 0, 0, 1, 2]), min_size=3, max_size=8)) if cfg["kind"] == "joint" else None)
             for _ in range(K_SETS)]
+    if bernoulli:  # large xi / onset long before or after the visits: the float32 logistic curve saturates (also to exactly 0 / 1)
+        for oset in sets:
+            if draw(st.booleans()):
+                oset["xi_boost"] = draw(st.lists(st.sampled_from([0.0, 0.0, 3.0, 6.0, 9.0]), min_size=2, max_size=5))
+                oset["tau_shift"] = draw(st.lists(st.sampled_from([0.0, -30.0, 30.0]), min_size=2, max_size=5))
     return dict(engine="model", cfg=cfg, cohort=cohort, sets=sets)
 
 
@@ -638,9 +717,14 @@ def apply_overrides(s, oset):
                     modes = gen.tensor_from([float(m) for m in oset["tau_mode"]], tuple(v.shape))
                     d = 0.05 + 5.0 * (U.abs())
                     v = torch.where(modes == 1, et + d, torch.where(modes == 2, et - d, v))
+                if oset.get("tau_shift"):
+                    v = v + gen.tensor_from(oset["tau_shift"], tuple(v.shape))
                 s[n] = v.to(torch.float32)
             elif n == "xi":
-                s[n] = (s["xi_mean"] + 2.0 * U).to(torch.float32)
+                v = s["xi_mean"] + 2.0 * U
+                if oset.get("xi_boost"):
+                    v = v + gen.tensor_from(oset["xi_boost"], tuple(v.shape))
+                s[n] = v.to(torch.float32)
             else:
                 s[n] = (3.0 * U).to(torch.float32)
 
@@ -668,23 +752,26 @@ def check_model_state(col, s, cfg, inp):
         col.exclude("individual-with-nonfinite-model-value", int((~fin).sum()))
         ind_ok &= fin
     if obs_kind == "bernoulli":
-        with np.errstate(all="ignore"):
-            sat = (w & ~((model > 1e-6) & (model < 1 - 1e-6))).any(axis=(1, 2))
-        if sat.any():
-            col.exclude("bernoulli-individual-with-saturated-probability", int(sat.sum()))
-            ind_ok &= ~sat
-        ref, tol = ref_bernoulli(yv, np.clip(np.nan_to_num(model, nan=0.5), 1e-9, 1 - 1e-9))
-        bucket = "M:bernoulli-attach"
+        B = ref_bernoulli(yv, np.nan_to_num(model, nan=0.5))
+        flags.update(sat=bool((w & ~B["inside"])[ind_ok].any()), exact=bool((w & B["exact"])[ind_ok].any()),
+                     sat_disagree=bool((w & B["disagree"])[ind_ok].any()))
+        lo, hi, itol = interval_sum(B, w, axis=(1, 2))
+        judge_interval(col, sub, "M:bernoulli-attach-ind", inp, attach_y + "_ind", to_np(s[attach_y + "_ind"]), lo, hi, itol, ind_ok)
+        if ind_ok.all():
+            judge_interval(col, sub, "M:bernoulli-attach-total", inp, attach_y, to_np(s[attach_y]), lo.sum(), hi.sum(),
+                           itol.sum() + 1e-5 * np.abs(lo).sum())
+        ref, tol, bucket = None, None, None
     else:
         sig = to_np(s["noise_std"])
         ref, tol = ref_normal(yv, np.nan_to_num(model), sig)
         bucket = "M:gaussian-attach"
-    y_ind, y_tol = sum_tol(ref, tol, w, axis=(1, 2))
-    got_y_ind = to_np(s[attach_y + "_ind"])
-    judge(col, sub, bucket + "-ind", inp, attach_y + "_ind", got_y_ind, y_ind, y_tol, ind_ok)
     total_ok = bool(ind_ok.all())
-    if total_ok:
-        judge(col, sub, bucket + "-total", inp, attach_y, to_np(s[attach_y]), y_ind.sum(), y_tol.sum() + 1e-5 * np.abs(y_ind).sum())
+    if ref is not None:
+        y_ind, y_tol = sum_tol(ref, tol, w, axis=(1, 2))
+        got_y_ind = to_np(s[attach_y + "_ind"])
+        judge(col, sub, bucket + "-ind", inp, attach_y + "_ind", got_y_ind, y_ind, y_tol, ind_ok)
+        if total_ok:
+            judge(col, sub, bucket + "-total", inp, attach_y, to_np(s[attach_y]), y_ind.sum(), y_tol.sum() + 1e-5 * np.abs(y_ind).sum())
     # events
     if "event" in names:
         ev = s["event"]
@@ -779,6 +866,12 @@ def body_model(col: Collector, case):
         classes = ["M", "M:kind:" + cfg["kind"], "M:obs:" + obs, "M:sources" if kw.get("source_dimension", 0) > 0 else "M:no-sources"]
         if flags.get("missing"):
             classes.append("M:missing-values")
+        if flags.get("sat"):
+            classes.append("M:bernoulli:saturated")
+        if flags.get("exact"):
+            classes.append("M:bernoulli:p-exactly-0-or-1")
+        if flags.get("sat_disagree"):
+            classes.append("M:bernoulli:saturated-disagreeing")
         nontrivial = flags["n_ind"] >= 2 and flags["judged"] >= 1
         if cfg["kind"] == "joint":
             classes.append("M:weibull-with-sources" if flags.get("with_sources") else "M:weibull-no-sources")
